@@ -219,6 +219,21 @@ def run(repo: Repo, L: Ledger, tier: str):
         per_scaffold = {}
         order = []
         for kind, payload, node in lines:
+            if kind in ("unterminated", "row") and isinstance(payload, Join):
+                # the column rules read a flat list of atomic column values; a column that is itself assembled text (an
+                # f-string holding several columns, a memoised tail, a concatenation that may end in the terminator) is a
+                # different way of writing the line, not a malformed line
+                its_ = payload.items.items if isinstance(payload.items, Tup) else None
+                if its_ is not None:
+                    for it_ in its_:
+                        atomic = (
+                            (isinstance(it_, Const) and isinstance(it_.v, str) and "\t" not in it_.v and "\n" not in it_.v)
+                            or isinstance(it_, Str | Lin)
+                            or (isinstance(it_, Sym) and not it_.name.startswith("call:"))
+                            or type(it_).__name__ in ("Lookup", "Star")
+                        )
+                        if not atomic:
+                            raise AnalysisError(f"{fmt.short}: a column of the written line is assembled text ({repr(it_)[:80]}): the line is not written as a flat list of column values — form not understood")
             if kind == "unterminated":
                 bad("O5", "line", "a row is written without its line terminator", node)
                 continue
@@ -347,24 +362,33 @@ def run(repo: Repo, L: Ledger, tier: str):
     L.check(verdict, "O8", "Scaffold.length", "Σ row.length over all rows: last object end == scaffold length", why8, at8.loc())
     # row iteration is over the unfiltered rows list, header lines do not interleave
     loops = [n for n in walk_shallow(fmt.node) if isinstance(n, ast.For)]
-    row_loops = [l for l in loops if "rows" in norm(l.iter)]
-    ok5 = False
-    if len(row_loops) == 1:
-        it = row_loops[0].iter
-        # enumerate(<scaffold>.rows) from 0, or a plain loop over <scaffold>.rows (part counter checked symbolically above)
-        if isinstance(it, ast.Call) and dotted(it.func) == "enumerate" and len(it.args) >= 1 and norm(it.args[0]).endswith(".rows") and isinstance(it.args[0], ast.Attribute):
-            ok5 = True
-        elif isinstance(it, ast.Attribute) and it.attr == "rows":
-            ok5 = True
+    # the loop that writes the rows: loops over rows that only inspect them (validation before writing) are not it
+    write_names = {"write", "writelines"} | {t.id for n in walk_shallow(fmt.node) if isinstance(n, ast.Assign) and isinstance(n.value, ast.Attribute) and n.value.attr == "write" for t in n.targets if isinstance(t, ast.Name)}
+
+    def _writes(loop):
+        return any(isinstance(c, ast.Call) and ((isinstance(c.func, ast.Attribute) and c.func.attr in ("write", "writelines", "append", "extend")) or (isinstance(c.func, ast.Name) and c.func.id in write_names) or dotted(c.func) == "print") for c in ast.walk(loop))
+
+    all_row_loops = [l for l in loops if "rows" in norm(l.iter)]
+    row_loops = [l for l in all_row_loops if _writes(l)] or all_row_loops
     if not row_loops:
         raise AnalysisError(f"{fmt.short}: no loop over a scaffold's rows in the formatter itself (rows are produced by a helper): form not understood")
-    if len(row_loops) == 1 and not ok5:
-        it_ = row_loops[0].iter
-        inner_ = it_.args[0] if isinstance(it_, ast.Call) and dotted(it_.func) in ("enumerate", "zip", "list", "iter") and it_.args else it_
-        if isinstance(inner_, ast.Call) and not (isinstance(inner_.func, ast.Name) and inner_.func.id in ("filter", "reversed", "sorted")):
+    if len(row_loops) != 1:
+        raise AnalysisError(f"{fmt.short}: {len(row_loops)} loops over rows write output: which one produces the AGP lines is not understood")
+    it = row_loops[0].iter
+    inner_ = it.args[0] if isinstance(it, ast.Call) and dotted(it.func) in ("enumerate", "zip", "list", "iter") and it.args else it
+    # enumerate(<scaffold>.rows[, k]) or a plain loop over <scaffold>.rows (part counter checked symbolically above)
+    ok5 = isinstance(inner_, ast.Attribute) and inner_.attr == "rows"
+    if not ok5:
+        # refuted only by an iterable that is known to drop or reorder rows
+        lossy = (
+            (isinstance(inner_, ast.Call) and isinstance(inner_.func, ast.Name) and inner_.func.id in ("filter", "reversed", "sorted"))
+            or (isinstance(inner_, ast.Subscript) and isinstance(inner_.slice, ast.Slice) and isinstance(inner_.value, ast.Attribute) and inner_.value.attr == "rows" and any(x is not None for x in (inner_.slice.lower, inner_.slice.upper, inner_.slice.step)))
+            or (isinstance(inner_, ast.ListComp | ast.GeneratorExp) and any(g.ifs for g in inner_.generators))
+        )
+        if not lossy:
             # rows come through a helper (scffld.placed_rows(), a generator ...) the column rules cannot see through
-            raise AnalysisError(f"{fmt.short}: the row loop iterates over '{norm(it_)[:50]}', a helper that produces the rows: form not understood")
-    L.check(bool(row_loops) and ok5, "O5", f"{fmt.short}:rows", "rows iterated unfiltered, in order", f"row loop iterates over '{norm(row_loops[0].iter) if row_loops else None}' (must be the scaffold's rows, unfiltered)", fmt.loc())
+            raise AnalysisError(f"{fmt.short}: the row loop iterates over '{norm(it)[:50]}', which is not the scaffold's rows list itself: form not understood")
+    L.check(ok5, "O5", f"{fmt.short}:rows", "rows iterated unfiltered, in order", f"row loop iterates over '{norm(it)}' (must be the scaffold's rows, unfiltered)", fmt.loc())
 
     # ---- O9 single writer
     callers = repo.callers_of(fmt)
